@@ -190,7 +190,87 @@ def _rb_cs_out(res, ex):
     return [("value", "Z", term_of(res, "Z"))]
 
 
+# ------------------------------------------------------------------------------------------------ C07: TD targets
+def _q_oracle(which):
+    """policy.q_values(states, observations) under jax.vmap: the per-sample vectors of action values, as an oracle table"""
+    def f(ex, n, args, kwargs):
+        if kwargs or len(args) != 2 or not all(isinstance(a, Vec) for a in args):
+            fail(n, "q_values call form")
+        return (Static(None), Vec.base(f"(qv {which} {materialise(args[0])} {materialise(args[1])})", "O"))
+    return Prim(f)
+
+
+def _dqn_bind():
+    batch = Obj({"states": vecO("states"), "observations": vecO("obs"), "next_states": vecO("next_states"),
+                 "next_observations": vecO("next_obs"), "actions": Vec.base("actions", "Z"), "rewards": vecR("rewards"),
+                 "dones": vecB("dones"), "timeouts": vecB("timeouts")}, "batch")
+    return {"policy": Obj({"q_values": _q_oracle("online")}, "policy"), "target_policy": Obj({"q_values": _q_oracle("target")}, "target"),
+            "batch": batch, "gamma": R("gamma")}
+
+
+def _sac_target_bind():
+    def pol(ex, n, args, kwargs):
+        if len(args) != 2 or set(kwargs) != {"key"} or not (isinstance(args[0], Static) and args[0].v is None):
+            fail(n, "action_and_log_prob call form")
+        return (Static(None), Sc("O", f"(pi_act {args[1].t} {kwargs['key'].t})"), Sc("R", f"(pi_logp {args[1].t} {kwargs['key'].t})"))
+
+    def qf(name):
+        def f(ex, n, args, kwargs):
+            if kwargs or len(args) != 2:
+                fail(n, "critic call form")
+            return Sc("R", f"({name} {args[0].t} {args[1].t})")
+        return Prim(f)
+    return {"next_obs": O("next_obs"), "reward": R("reward"), "done": B("done"), "timeout": B("timeout"), "action_key": K("key"),
+            "@policy": Obj({"action_and_log_prob": Prim(pol)}, "policy"), "@qf1_target": qf("q1t"), "@qf2_target": qf("q2t"),
+            "@alpha": R("alpha"), "@self": Obj({"gamma": R("gamma")}, "self")}
+
+
+# ------------------------------------------------------------------------------------------------ C08: PPO loss
+def _ppo_bind():
+    buf = Obj({"states": vecO("states"), "observations": vecO("obs"), "actions": vecO("actions"), "action_masks": vecO("masks"),
+               "log_probs": vecR("old_log_probs"), "advantages": vecR("advs"), "values": vecR("old_values"), "returns": vecR("returns")},
+              "rollout_buffer")
+
+    def evaluate(ex, n, args, kwargs):
+        got = [materialise(a) if isinstance(a, Vec) else None for a in args] + [materialise(kwargs[k]) if isinstance(kwargs.get(k), Vec) else None for k in ("action_mask",)]
+        if got != ["states", "obs", "actions", "masks"] or set(kwargs) != {"action_mask"}:
+            fail(n, "evaluate_action is no longer called on the stored (states, observations, actions, action_mask=action_masks)")
+        return (Static(None), vecR("values"), vecR("log_probs"), vecR("entropy"))
+    return {"policy": Obj({"evaluate_action": Prim(evaluate)}, "policy"), "rollout_buffer": buf, "normalize_advantages": B("normalize"),
+            "clip_coefficient": R("eps"), "clip_value_loss": B("clip_vf"), "value_loss_coefficient": R("cv"),
+            "entropy_loss_coefficient": R("ce")}
+
+
+def _ppo_out(res, ex):
+    if not (isinstance(res, tuple) and len(res) == 2 and isinstance(res[1], tuple) and len(res[1]) == 5):
+        raise TranslateError("ppo_loss no longer returns (loss, PPOStats(approx_kl, loss, policy_loss, value_loss, entropy_loss))")
+    names = ["approx_kl", "total", "policy_loss", "value_loss", "entropy_loss"]
+    if term_of(res[0], "R") != term_of(res[1][1], "R"):
+        raise TranslateError("the differentiated loss is not the reported total loss")
+    return [(nm, "R", term_of(v, "R")) for nm, v in zip(names, res[1])]
+
+
+def _p_std(ex, n, args, kwargs):
+    if kwargs or len(args) != 1 or not isinstance(args[0], Vec):
+        fail(n, "std form")
+    return Sc("R", f"(std {materialise(args[0])})")
+
+
 KERNELS = {
+    "C08": [Kernel("ppo", "algorithm/ppo.py", "PPO", "ppo_loss", _ppo_bind,
+                   "(normalize clip_vf : bool) (eps cv ce : R) (values log_probs entropy old_log_probs advs old_values returns : list R)",
+                   _ppo_out,
+                   prims={"jnp.std": Prim(_p_std), "PPOStats": Prim(lambda ex, n, a, k: tuple(a) if not k else fail(n, "PPOStats keywords")),
+                          "jnp.finfo": Prim(lambda ex, n, a, k: Obj({"eps": R("feps")}, "finfo"))},
+                   variables=("(std : list R -> R)", "(feps : R)"))],
+    "C07": [Kernel("dqn", "algorithm/dqn.py", "DQN", "dqn_loss", _dqn_bind,
+                   "(states obs next_states next_obs : list Xs) (actions : list Z) (rewards : list R) (dones timeouts : list bool) (gamma : R)",
+                   lambda res, ex: [("loss", "R", term_of(res, "R"))],
+                   variables=("(Pol Xs : Type)", "(online target : Pol)", "(qv : Pol -> list Xs -> list Xs -> list (list R))")),
+            Kernel("sac", "algorithm/sac.py", "SAC", "sac_train/compute_target", _sac_target_bind,
+                   "(gamma alpha : R) (next_obs : Ob) (reward : R) (done timeout : bool) (key : Key)",
+                   lambda res, ex: [("target", "R", term_of(res, "R"))],
+                   variables=("(Ob Act Key : Type)", "(pi_act : Ob -> Key -> Act)", "(pi_logp : Ob -> Key -> R)", "(q1t q2t : Ob -> Act -> R)"))],
     "C06": [Kernel("add", "buffer/replay.py", "ReplayBuffer", "add", _rb_add_bind,
                    "{Ob Ac Ps : Type} (b : @soa Ob Ac Ps) (x : @trow Ob Ac Ps)", _rb_add_out, carrier="Q",
                    prims={"eqx.tree_at": Prim(_tree_at)}),
@@ -221,7 +301,9 @@ def translate(pid):
                 for node in tree.body:
                     if isinstance(node, ast.FunctionDef) and node.name in k.module_funcs:
                         scope[node.name] = Closure(node, scope)
-            res = run_function(ex, fn, k.bindings(), scope)
+            b = k.bindings()
+            scope.update({nm[1:]: v for nm, v in b.items() if nm.startswith("@")})
+            res = run_function(ex, fn, b, scope)
             out.append((k, sha, k.outputs(res, ex)))
         except TranslateError as e:
             raise TranslateError(f"{k.file}:{k.cls or ''}.{k.func}: {e}") from e
@@ -240,13 +322,9 @@ def coq_text(pid, imports=()):
     parts = [HEADER.format(pid=pid, imports="".join(" " + i for i in imports))]
     for k, sha, outs in translate(pid):
         parts.append(f"(* {k.file} :: {(k.cls + '.') if k.cls else ''}{k.func}   (sha256 of the file {sha}) *)")
-        if k.variables:
-            parts.append(f"Section Gen_{k.name}.")
-            parts.extend(k.variables)
+        binders = (" ".join(k.variables) + " " if k.variables else "") + k.params
         for suffix, ty, term in outs:
-            parts.append(f"Definition gen_{k.name}_{suffix} {k.params} : {ty} :=\n  {term}.")
-        if k.variables:
-            parts.append(f"End Gen_{k.name}.")
+            parts.append(f"Definition gen_{k.name}_{suffix} {binders} : {ty} :=\n  {term}.")
         parts.append("")
     return "\n".join(parts)
 
